@@ -550,7 +550,7 @@ func (e *env) doStep(st Step) *hx.Failure {
 				wantEvents = []expEvent{{id: e.ids[st.D]}}
 			}
 		}
-	case "get", "list", "count", "indexes", "docids":
+	case "get", "list", "count", "indexes", "docids", "exists":
 		if st.A != 0 {
 			if ac.ended {
 				return nil
@@ -594,7 +594,7 @@ func (e *env) doStep(st Step) *hx.Failure {
 	// 3. a reader outside every transaction sees exactly the committed state (a read inside a
 	// transaction is followed by the raw-store and event checks only)
 	switch st.K {
-	case "get", "list", "count", "indexes", "docids":
+	case "get", "list", "count", "indexes", "docids", "exists":
 		if st.A != 0 {
 			return nil
 		}
@@ -1226,6 +1226,8 @@ func (e *env) readExpect(st Step, s *mstate) string {
 		return strings.Join(rows, "\n")
 	case "indexes":
 		return s.indexNames()
+	case "exists":
+		return strconv.FormatBool(s.docs[st.D].st == live)
 	case "docids":
 		// the primary key of a deleted document stays (marked deleted): GetAllDocIDs lists it too
 		ids := []string{}
@@ -1337,6 +1339,23 @@ func (e *env) observe(ac *actor, st Step) (got string, errText string, route str
 		}
 		return strings.Join(hx.SortRows(res.Rows("Users")), "\n"), "", route, nil
 
+	case "exists":
+		// Collection.Exists: true for a live document only
+		route = routeName(st.A, 2)
+		col, err := e.col(ac)
+		if err != nil {
+			return "", err.Error(), route, nil
+		}
+		id, err := client.NewDocIDFromString(e.ids[st.D])
+		if err != nil {
+			hx.Harnessf("docID: %v", err)
+		}
+		ok, err := col.Exists(e.callCtx(ac), id)
+		if err != nil {
+			return "", err.Error(), route, nil
+		}
+		return strconv.FormatBool(ok), "", route, nil
+
 	case "docids":
 		// Collection.GetAllDocIDs: the ids of the documents (deleted ones included), through the collection API only
 		route = routeName(st.A, 2)
@@ -1391,7 +1410,7 @@ func (e *env) observe(ac *actor, st Step) (got string, errText string, route str
 
 // covered lists the documents a read depends on.
 func covered(st Step, n int) []int {
-	if st.K == "get" {
+	if st.K == "get" || st.K == "exists" {
 		return []int{st.D}
 	}
 	if st.K == "indexes" {
